@@ -9,7 +9,7 @@ theorem roots_lt {c : Ctx} {k : Nat} {r : Node} (h : c.roots[k]? = some r) : k <
   · rw [Array.getElem?_eq_none (by omega)] at h; cases h
 
 /-- `nodeOp` with a good operation at a valid container handle -/
-theorem nodeOp_ok {c : Ctx} (hc : CInv c) (hwf : WF c.input) {h : Handle} {m : Node}
+theorem nodeOp_ok {c : Ctx} (hc : CInv c) {h : Handle} {m : Node}
     (hm : c.nodeAt? h = some m) (hcomp : m.isComposite = true)
     {g : Node → Node × Got} (hg : NodeOpOK c.input g) (childStep : Nat → PStep) :
     CInv (c.nodeOp h g childStep).1 ∧ (c.nodeOp h g childStep).1.input = c.input ∧
@@ -42,7 +42,7 @@ theorem nodeOp_ok {c : Ctx} (hc : CInv c) (hwf : WF c.input) {h : Handle} {m : N
       obtain ⟨hext, m0, hm0, hgot, hm'⟩ := updateAt_spec g hg.ext h.path r r' got hu
       rw [hm] at hm0; simp at hm0; subst hm0
       subst hgot
-      have hinv' : Inv c.input 0 r' := updateAt_inv hg h.path hwf hrinv hu
+      have hinv' : Inv c.input 0 r' := updateAt_inv hg h.path hrinv hu
       -- the new context
       have hstep : c.nodeOp h g childStep =
           ({ c with roots := c.roots.setIfInBounds h.root r' },
